@@ -351,7 +351,9 @@ func Main(chk Check) {
 			os.Exit(2)
 		}
 		c := newCtx(0, 1)
-		chk.Replay(c, rf.Case)
+		if !c.ConcReplay(rf.Case) {
+			chk.Replay(c, rf.Case)
+		}
 		if len(c.res.Violations) > 0 {
 			for _, v := range c.res.Violations {
 				fmt.Printf("REPLAY-VIOLATION property=%s sig=%s %s\n", chk.ID, v.Sig, v.Msg)
